@@ -504,6 +504,11 @@ def embed(rng, decls, obs, js):
     return PRELUDE + "let pad = [1, 2].map(x => x * 2);\n%s\n%s" % (body, o)
 
 
+def matches_finding(f, case, what, extra):
+    m = f.get("marker")
+    return bool(m) and isinstance(case, dict) and ("/*KF:%s*/" % m) in case.get("typescript", "")
+
+
 def run(ctx):
     rng = ctx.rng
     cases = []
@@ -545,6 +550,14 @@ def run(ctx):
          "class B { x = 0; log = ['B']; } class D extends B { f = this.log.push('f'); constructor(x) { super(); this.x = x; this.log.push('body'); } }", None, "JSON.stringify([new D(4).x, new D(4).log])"),
         ("class P { n: any; constructor(public x: number, ...rest: number[]) { this.n = rest; } }", "class P { n; constructor(x, ...rest) { this.x = x; this.n = rest; } }", None, "JSON.stringify(new P(1, 2, 3))"),
         ("class P { public static s = 1; protected static t() { return 2; } static readonly u = 4; }", "class P { static s = 1; static t() { return 2; } static u = 4; }", None, "JSON.stringify([(P as any).s, (P as any).t(), (P as any).u])"),
+    ]
+    # witnesses of recorded findings (known_findings.json, matched by the /*KF:…*/ marker)
+    corpus += [
+        ("/*KF:merged-enum-reference*/ enum E { A = 1 }\nenum E { B = A + 1 }", "var E; (function (E) { E[E[\"A\"] = 1] = \"A\"; })(E || (E = {}));\n(function (E) { E[E[\"B\"] = 2] = \"B\"; })(E || (E = {}));", None, ENUM_OBS % "(E as any)[2]"),
+        ("/*KF:namespace-enum-merge*/ namespace N { export enum E { A } }\nnamespace N { export enum E { B = 5 } }",
+         "var N; (function (N) { let E; (function (E) { E[E[\"A\"] = 0] = \"A\"; })(E = N.E || (N.E = {})); })(N || (N = {}));\n(function (N) { let E; (function (E) { E[E[\"B\"] = 5] = \"B\"; })(E = N.E || (N.E = {})); })(N || (N = {}));", None, "JSON.stringify((N as any).E)"),
+        ("/*KF:namespace-function-hoisting*/ namespace N { export const v = h(); function h() { return 4; } }", "var N; (function (N) { N.v = h(); function h() { return 4; } })(N || (N = {}));", None, "JSON.stringify(N)"),
+        ("/*KF:import-alias*/ namespace N { export namespace M { export const k = 1; } }\nimport X = N.M;", "var N; (function (N) { let M; (function (M) { M.k = 1; })(M = N.M || (N.M = {})); })(N || (N = {}));\nvar X = N.M;", None, "JSON.stringify([X.k, (N as any).M.k])"),
     ]
     for ts, js, model, obs in corpus:
         cases.append({"kind": "corpus", "ts": PRELUDE + ts + "\n" + obs, "js": PRELUDE + js + "\n" + obs.replace("(E as any)", "E").replace("(N as any)", "N").replace("(P as any)", "P"), "model": model})
